@@ -32,7 +32,7 @@ def solver_kwargs(item, tmp):
 def build(item):
     if item["fam"] == "mixed":
         return c16_gen.mixed(item["seed"])
-    return c16_gen.make(item["fam"], item["seed"], **item.get("kw", {}))
+    return c16_gen.make(item["fam"], item["seed"], **dict(item.get("kw", {})))
 
 
 def fn_signatures(outcome, events):
@@ -87,6 +87,19 @@ def do_item(rec, item, tmp, timeout):
     summ = {"tag": tag, "fam": fam, "seed": item["seed"], "solver": sname, "order": "-".join(order), "desc": desc[:2]}
     pend_all = []
     t_item = time.time()
+    if item.get("prelude"):
+        # another contract with the SAME contract and function names runs first in this process with the cache on
+        # (a Foundry project may hold same-named test contracts in different files); whatever it learned must not
+        # answer the queries of the contract under test
+        pre, _ = build(item["prelude"])
+        assert pre.name == spec.name
+        o, ev, st, dt = one_run(pre, True, item, skw, stubdir)
+        if o.exception is not None:
+            rec.harness_error(f"{tag}: prelude run_contract raised {o.exception!r}")
+            return summ
+        summ["t_prelude"] = round(dt, 1)
+        del o, ev
+        gc.collect()
     for mode in order:
         o, ev, st, dt = one_run(spec, mode == "on", item, skw, stubdir)
         if o.exception is not None:
@@ -105,6 +118,30 @@ def do_item(rec, item, tmp, timeout):
                 summ["stub_log"] = [" ".join(x[1:3]) for x in c16_stub.read_log(stubdir)][-40:]
         del ev
         gc.collect()
+    if item.get("prelude"):
+        # whether a leaked core bites depends on which AST ids z3 re-issues: give it more histories (the prelude again,
+        # then the contract under test, cache on and off -- check_unsat_cores is consulted in both modes)
+        for rep in range(item.get("reps", 3)):
+            o, ev, st, dt = one_run(pre, True, item, skw, stubdir)
+            del o, ev
+            gc.collect()
+            for mode in ("on", "off"):
+                o, ev, st, dt = one_run(spec, mode == "on", item, skw, stubdir)
+                if o.exception is not None:
+                    rec.harness_error(f"{tag}: run_contract raised {o.exception!r} (repetition {rep})")
+                    return summ
+                s, pending = c16_mon.analyze(ev, rec, tag, key_sfx + f"/rep{rep}{mode}", timeout=timeout)
+                summ[f"hits_rep{rep}{mode}"] = s.get("hits")
+                pend_all = pend_all + pending
+                sig = fn_signatures(o, ev)
+                for fn, a in sig.items():
+                    b = runs["off"][1].get(fn)
+                    if b is not None and (a["exitcode"], a["num_models"]) == (b["exitcode"], b["num_models"]):
+                        rec.ok("transparency", f"{key_sfx}/rep{rep}{mode}/{fn.split('(')[0][:9]}", nontrivial=False)
+                    elif not pending:
+                        rec.inconc("transparency", f"{key_sfx}/rep{rep}{mode}", f"{fn}: result differs from the first cache-off run but the monitor flagged nothing")
+                del o, ev
+                gc.collect()
     # ---- monitor violations: replay on the real solve_end_to_end ----
     seen = set()
     for p in pend_all:
